@@ -16,7 +16,7 @@ func init() {
 	register(&Property{
 		Meta: report.Meta{
 			Property:    "C15",
-			Explanation: "Decision tables read off the CFG of command.Covers and command.Parse. Covers: no 'true' path without HasPrefix(other, c) (roles checked) and without one of the boundary facts {c == \"/\", len(c) == len(other), other[len(c)] == '/'}; no 'false' path when the prefix fact and any boundary fact hold. Parse: no success without leading slash, with a trailing slash on a longer string, or with a string that differs from its lower-casing; success returns the input unchanged; a string satisfying the three conditions is never rejected. Top/Join/Segments use the single separator \"/\". The order axioms follow from this shape but are runtime-value clauses and are not decided. (R4) Join: in its loop over the segments an iteration leaves the buffer unchanged only for an empty segment and otherwise appends [one separator, unless the buffer holds only the root] and the whole segment; the result is the buffer started from the receiver. Segments and its callees in the package use no package-level variable (its result belongs to the caller).",
+			Explanation: "Decision tables read off the CFG of command.Covers and command.Parse. Covers: no 'true' path without HasPrefix(other, c) (roles checked) and without one of the boundary facts {c == \"/\", len(c) == len(other), other[len(c)] == '/'}; no 'false' path when the prefix fact and any boundary fact hold. Parse: no success without leading slash, with a trailing slash on a longer string, or with a string that differs from its lower-casing; success returns the input unchanged; a string satisfying the three conditions is never rejected. Top/Join/Segments use the single separator \"/\". The order axioms follow from this shape but are runtime-value clauses and are not decided. (R4) Join: in its loop over the segments an iteration leaves the buffer unchanged only for an empty segment and otherwise appends [one separator, unless the buffer holds only the root] and the whole segment; the result is the buffer started from the receiver. Segments and its callees in the package use no package-level variable (its result belongs to the caller). A strings.SplitN in Segments has a negative count.",
 			Assumptions: []string{"strings.HasPrefix/HasSuffix/ToLower/Split semantics"},
 			Trusted:     []string{"golang.org/x/tools/go/ssa v0.29.0", "package strings"},
 			NotDecided:  []string{"reflexivity/antisymmetry/transitivity as such (they follow from the prefix+boundary shape for valid commands)", "Join on segments that themselves contain '/'"},
@@ -29,7 +29,7 @@ func runC15(x *Ctx) {
 	x.C.Rule("C15.R1", "Covers = textual prefix AND segment boundary", 6)
 	x.C.Rule("C15.R2", "Parse grammar: leading slash, no trailing slash, lower case, input returned unchanged", 7)
 	x.C.Rule("C15.R4", "Join appends whole non-empty segments, one separator each", 2)
-	x.C.Rule("C15.R3", "single separator constant in Top / Join / Segments; Segments keeps empty segments and hands out its own slice", 5)
+	x.C.Rule("C15.R3", "single separator constant in Top / Join / Segments; Segments keeps all segments (unbounded split, empty ones kept) and hands out its own slice", 5)
 
 	if f := x.fn("C15.R1", "(pkg/command.Command).Covers"); f != nil {
 		// accepted renderings of the two facts (today's HasPrefix form and the strings.CutPrefix form)
